@@ -16,6 +16,8 @@ import SkVerif.Lemmas.SeriesRound
 import SkVerif.Lemmas.SeriesPhase
 import SkVerif.Lemmas.SeriesShift
 import SkVerif.Lemmas.SeriesMachine
+import SkVerif.Spec.HampelPos
+import SkVerif.Lemmas.HampelPos
 namespace SkVerif.C13
 open SkVerif SkVerif.ST SkVerif.Lem.ST
 
@@ -519,8 +521,29 @@ theorem hampel_not_shift_equivariant :
       = .err .key := by
   constructor <;> decide +kernel
 
+/-- what remains true for HampelFilter: on a 0-based index (labels 0, 1, …, the only index on which
+it works) `_hampel_filter` computes exactly the positional specification `hampelPos` … -/
+theorem hampel_positional_at_origin_zero (cfg : HampelCfg) (z : Series) (h : BasedAt 0 z) :
+    hampel cfg z = hampelPos cfg z :=
+  hampel_eq_hampelPos cfg z h
+
+/-- … and that positional specification commutes with every shift of the index (values and error
+kinds unchanged), which is what the property asks of the filter. -/
+theorem hampelPos_shift_equivariant (cfg : HampelCfg) (c : Int) (z : Series) :
+    hampelPos cfg (shiftSeries c z) = (hampelPos cfg z).map (shiftSeries c) :=
+  hampelPos_shift cfg c z
+
 -- =============================================================================================
 -- non-vacuity: concrete objects meeting the hypotheses
+
+example : BasedAt 0 [(0, some 1), (1, some 90), (2, none)] := by
+  intro i h
+  simp only [List.length_cons, List.length_nil] at h
+  match i, h with
+  | 0, _ => rfl
+  | 1, _ => rfl
+  | 2, _ => rfl
+
 
 example : DesWF witnessDes := ⟨by decide, by intro seas h; simp [witnessDes] at h; subst h; rfl⟩
 example : PhaseRef witnessDes 0 [1, -1] :=
